@@ -11,6 +11,7 @@ from . import targets
 
 ASSUMPTIONS = [
     'real processes; the OS schedule is sampled. A list-collecting handler on the parent root logger is the observation point',
+    'direct Process: when result() returns or raises for a child that ended by itself (return, raise, sys.exit), all its records have been handled (the only synchronisation point a parent has; a parent that exits after join() must not lose records)',
     "a forwarded record is handled iff record.levelno >= getLogger(record.name).getEffectiveLevel() in the parent (the documented rule); the child's targets never configure logging",
     'join()/result() not returning within the watchdog on 3 attempts is a hang',
 ]
@@ -84,6 +85,8 @@ def run_case(spec):
         root.setLevel(old_level)
     if res.get('error'):
         raise Violation(res['error'][0], res['error'][1], signature=[res['error'][0], spec['mode']])
+    if res.get('handled_at_return') is not None and res['handled_at_return'] < len(want) and got == want:
+        raise Violation('records_pending_at_return', f"result() returned/raised while {len(want) - res['handled_at_return']} of {len(want)} records of the (ended) child were still unhandled; a parent that exits now loses them (mode {spec['mode']}, ending {spec['ending']}, {spec['n']} x {spec['size']} B, handler {spec['slow_ms']} ms/record)", signature=['records_pending_at_return', spec['ending']])
     if got != want:
         if len(got) < len(want) and got == want[: len(got)]:
             raise Violation('records_lost', f"{len(want) - len(got)} of {len(want)} records never reached the parent (the last {len(want) - len(got)}); mode {spec['mode']}, {spec['n']} x {spec['size']} B, ending {spec['ending']}, {spec['tail']}", signature=['records_lost', spec['mode']])
